@@ -1018,8 +1018,8 @@ fn families() -> Vec<(&'static str, fn() -> Vec<String>, fn(&str) -> Result<Viol
 
 fn main() {
     std::panic::set_hook(Box::new(|_| {}));
-    // the election wait loops poll every 2 ms up to this timeout (lazy_static, read once): keep the two-member scenarios short
-    if std::env::var("NUN_ELECTION_TIMEOUT").is_err() { std::env::set_var("NUN_ELECTION_TIMEOUT", "6"); }
+    // the election wait loops poll every 2 ms up to this timeout (lazy_static, read once): keep the two-member scenarios short, but long enough for the helper thread of the `2r` variant to register the candidacy under load
+    if std::env::var("NUN_ELECTION_TIMEOUT").is_err() { std::env::set_var("NUN_ELECTION_TIMEOUT", "30"); }
     if std::env::var("NUN_DBS_DIR").is_err() {
         let d = format!("/var/tmp/verif-replay-data/{}", std::process::id());
         std::fs::create_dir_all(&d).unwrap();
